@@ -1,0 +1,7 @@
+//go:build !verif
+
+package json
+
+func verifJSONArrival(firstLine, count int) {}
+func verifJSONReaderDone()                  {}
+func verifJSONBatchDelay(firstLine int)    {}
